@@ -16,6 +16,11 @@ CHECKS["C07"] = dict(
    text="Generated-schedule search with a reference model: every flat program up to the bound and thousands of random nested programs with re-entrant handler scripts are executed on the real hub and on a simulator written from the statement; any difference in who receives what, how often, in which order and nesting is a violation.",
    note="Trusted: the simulator in pbt/props/c07.py as the reading of the statement; single-threaded (the hub is synchronous); handlers never raise; equal priorities are not generated.",
    ref="DESIGN.md section 4 C07")
+CHECKS["C01"] = dict(
+   technique="property-based differential testing (Hypothesis): generated expression trees / edit-mode programs vs. a numpy Boolean evaluator over fresh leaf masks",
+   text="Generated-input search with an explicit oracle: for generated datasets, expression trees over every elementary selection kind and edit-mode programs, the composite's mask must equal numpy logical ops over the masks of freshly built leaves, before and after generated evaluation schedules, copies and views, and every operand must keep its parameters and mask.",
+   note="Trusted: numpy logical ops; leaf masks are taken from glue itself (fresh leaves), so leaf correctness is not established here (C04/C08/C09).",
+   ref="DESIGN.md section 4 C01")
 NOT_APPLICABLE = []
 
 def main():
